@@ -1254,6 +1254,30 @@ class PerturbedDroplet3DAxisSym(PerturbedDropletBase):
         return self.radius * dist  # type: ignore
 
     @enable_scalar_args
+    def interface_position(
+        self, θ: np.ndarray, φ: np.ndarray | None = None
+    ) -> np.ndarray:
+        r"""Calculates the position of the interface of the droplet.
+
+        Args:
+            θ (float or :class:`~np.ndarray`):
+                Azimuthal angle (in :math:`[0, \pi]`)
+            φ (float or :class:`~np.ndarray`):
+                Polar angle (in :math:`[0, 2\pi]`); 0 if omitted
+
+        Returns:
+            Array with coordinates of the interfacial points associated with the angles
+        """
+        if φ is None:
+            φ = np.zeros_like(θ)
+        elif θ.shape != φ.shape:
+            raise ValueError("Shape of θ and φ must agree")
+        dist = self.interface_distance(θ)
+        unit_vector = [np.sin(θ) * np.cos(φ), np.sin(θ) * np.sin(φ), np.cos(θ)]
+        pos = dist[:, None] * np.transpose(unit_vector)
+        return self.position[None, :] + pos  # type: ignore
+
+    @enable_scalar_args
     def interface_curvature(self, θ: np.ndarray) -> np.ndarray:  # type: ignore
         r"""Calculates the mean curvature of the interface of the droplet.
 
